@@ -61,7 +61,9 @@ def document(A, obj):
     if out is not None:
         doc["m"] = [sidx.get(out.object_species.get(n), 0) for n in onodes]
         if hasattr(out, "syntenies"):
-            doc["lab"] = [list(out.syntenies[n]) if n in out.syntenies else ["?"] for n in onodes]
+            # an unordered labelling is a family *set* per node: compared in sorted order
+            shape = list if out.ordered else sorted
+            doc["lab"] = [shape(out.syntenies[n]) if n in out.syntenies else ["?"] for n in onodes]
             doc["ordered"] = 1 if out.ordered else 0
         events = mc.safe(lambda: [out.node_event(n).name for n in onodes])
         cost = mc.safe(lambda: proj.cost_from_impl(A, out.cost()))
